@@ -103,8 +103,8 @@ CHECKS.update({
                  "both directions apply are exact for all index values (R-BITPROV); overflow-checked parents cannot wrap (R-OVF); failing callees make the callers fail (R-ERRFLOW); "
                  "the _NONPOLAR/_POLAR reverse rotation tables and the forward unfolding are inverse in both directions wherever both succeed (T20), likewise T14 for a pentagon origin; "
                  "aperture-7 parent/child kernels (T21) and the ij/cube conversions (T22) are inverse linear maps; coordinates more than one base cell away are rejected before the "
-                 "base-cell lookup: INVALID_DIGIT from _unitIjkToDigit never reaches a 7-wide table subscript (R-UNITVEC).",
-                 "distance = graph distance; the rejection of the deleted direction inside localIjkToCell.", "R-GUARD " + G + "; R-TAB T1,T2,T3,T10,T14,T20,T21,T22 " + TAB + "; " + BP + "; R-OVF; R-ERRFLOW; R-UNITVEC range-test/typestate rule"),
+                 "base-cell lookup: INVALID_DIGIT from _unitIjkToDigit never reaches a 7-wide table subscript (R-UNITVEC); a base-cell direction that unfolds onto the deleted K axis of a pentagon origin is rejected with E_PENTAGON (guard row on the rotation loop's exit value).",
+                 "distance = graph distance.", "R-GUARD " + G + "; R-TAB T1,T2,T3,T10,T14,T20,T21,T22 " + TAB + "; " + BP + "; R-OVF; R-ERRFLOW; R-UNITVEC range-test/typestate rule"),
  "C10": _partial("C10", "isValidDirectedEdge conjuncts (direction 1..6, mode 2 via getDirectedEdgeOrigin, not K on a pentagon, valid origin) and acceptance when all hold; "
                  "E_NOT_NEIGHBORS and E_DIR_EDGE_INVALID clauses; direction<->vertex-number maps (T8), pentagon direction/face table (T12); edgeLengthKm/M unit factors; for all 2^64 "
                  "values isValidDirectedEdge accepts EXACTLY mode 2, direction 1..6 (not 1 on a pentagon) over a valid origin, and getDirectedEdgeOrigin stores exactly the edge with mode 1 and "
